@@ -143,6 +143,31 @@ def _disarm():
     signal.setitimer(signal.ITIMER_REAL, 0)
 
 
+def rebuild_any(prop, payload):
+    """the auxiliary objects of a case; none for a case that stands for its own generation (see `run_any`)"""
+    if payload.get('kind') == 'gen-hang':
+        return None
+    return prop.rebuild(payload)
+
+
+def run_any(prop, case, driver):
+    """Generators that plan edits or scripts against the real objects can be made to hang by the code under test.
+    Such a case is kept as the seed it was generated from: running it generates it again (under the same watchdog)
+    and then runs it."""
+    if case.payload.get('kind') == 'gen-hang':
+        try:
+            c2 = prop.gen_case(random.Random(case.payload['gen_seed']), case.payload['tier'])
+        except CaseTimeout:
+            raise
+        except Exception:
+            res = Result()
+            res.violations.append('while the case was being generated (valid edits and queries of a valid statechart): '
+                                  + traceback.format_exc().strip().splitlines()[-1][:200])
+            return res, None, None
+        return prop.run_case(c2, driver)
+    return prop.run_case(case, driver)
+
+
 def corpus_cases(prop):
     d = os.path.join(engine.VERIF, 'corpus', prop.id)
     out = []
@@ -151,7 +176,7 @@ def corpus_cases(prop):
             if f.endswith('.json'):
                 payload = json.load(open(os.path.join(d, f)))
                 payload = payload.get('case', payload)
-                c = Case(payload, prop.rebuild(payload), origin='corpus:' + f)
+                c = Case(payload, rebuild_any(prop, payload), origin='corpus:' + f)
                 out.append(c)
     return out
 
@@ -190,7 +215,10 @@ def _worker(args):
             if case is not None:
                 res.violations.append(str(e))
             else:
-                res.error = str(e)
+                # the generator itself did not return: the case is the seed it was generated from
+                case = Case({'kind': 'gen-hang', 'gen_seed': seed, 'tier': tier}, None)
+                res.violations.append('while the case was being generated (edits and scripts are planned against the real '
+                                      'objects): ' + str(e))
             if driver:
                 driver.close()
             try:
@@ -200,8 +228,17 @@ def _worker(args):
         except Exception:
             _disarm()
             res = Result()
-            res.error = traceback.format_exc()[-1500:]
-            case = None
+            tb = traceback.format_exc()
+            last = [l for l in tb.splitlines() if l.startswith('  File ')][-1:]
+            if case is None and last and '/sismic/' in last[0] and '/harness/' not in last[0]:
+                # raised inside the library while the case was being generated (edits and scripts are planned against
+                # the real objects, with arguments that are valid): the case is the seed it was generated from
+                case = Case({'kind': 'gen-hang', 'gen_seed': seed, 'tier': tier}, None)
+                res.violations.append('while the case was being generated (valid edits and queries of a valid statechart): '
+                                      + tb.strip().splitlines()[-1][:200])
+            else:
+                res.error = tb[-1500:]
+                case = None
         keep = None
         if case is not None and (res.violations or res.disagreement or res.error or res.model_violations):
             keep = case.payload
@@ -217,7 +254,7 @@ def guarded_run(prop, case, driver):
     a result that says so"""
     try:
         _arm()
-        out = prop.run_case(case, driver)
+        out = run_any(prop, case, driver)
         _disarm()
         return out
     except CaseTimeout as e:
@@ -249,6 +286,8 @@ def shrink(prop, case, driver, pred):
     """greedy delta debugging with the property's own candidate generator (bounded: 300 candidates,
     45 s; a candidate on which the implementation does not return ends the shrinking)"""
     cur = case
+    if case.payload.get('kind') == 'gen-hang':
+        return case
     budget = 300
     deadline = time.time() + 45
     improved = True
@@ -323,13 +362,13 @@ def run_check(prop, tier, seed, replay=None, jobs=None, n_cases=None, write_evid
     if replay:
         payload = json.load(open(replay))
         payload = payload.get('case', payload)
-        cases = [Case(payload, prop.rebuild(payload), origin='replay')]
+        cases = [Case(payload, rebuild_any(prop, payload), origin='replay')]
     else:
         cases = corpus_cases(prop)
     for c in cases:
         try:
             _arm()
-            res, io, mo = prop.run_case(c, driver)
+            res, io, mo = run_any(prop, c, driver)
             _disarm()
         except CaseTimeout as e:
             _disarm()
@@ -397,7 +436,7 @@ def run_check(prop, tier, seed, replay=None, jobs=None, n_cases=None, write_evid
     seen_known = set()
     reported = 0
     for origin, h, res, payload in viol:
-        case = Case(payload, prop.rebuild(payload), origin=origin)
+        case = Case(payload, rebuild_any(prop, payload), origin=origin)
         matched = None
         for f in known:
             if prop.known_signature(f, case, res):
@@ -449,7 +488,7 @@ def run_check(prop, tier, seed, replay=None, jobs=None, n_cases=None, write_evid
                 if res2.model_violations and model_cex is None:
                     model_cex = (keep2, res2.model_violations[:2])
                 if res2.violations and reported < 3:
-                    case = Case(keep2, prop.rebuild(keep2), origin='search:%d' % s2)
+                    case = Case(keep2, rebuild_any(prop, keep2), origin='search:%d' % s2)
                     if any(prop.known_signature(f, case, res2) for f in known):
                         continue
                     small = shrink(prop, case, driver, same_failure(res2))
